@@ -156,11 +156,14 @@ def run_agree(vfile, tmpdir, skip=()):
     src = open(os.path.join(COQ, 'GenAgree', vfile)).read()
     head, rest = src.split('(* HEADER END *)')
     body, foot = rest.split('(* FOOTER *)')
-    chunks = re.split(r'\(\* AGREE (\w+)[^*]*\*\)', body)
+    chunks = re.split(r'\(\* AGREE (\w+)([^*]*)\*\)', body)
     names, paths = [], []
-    for i in range(1, len(chunks), 2):
-        name, text = chunks[i], chunks[i + 1]
+    for i in range(1, len(chunks), 3):
+        name, extra, text = chunks[i], chunks[i + 1], chunks[i + 2]
         if name in skip:
+            continue
+        # `(* AGREE f needs: g h *)`: the lemma also mentions the generated definitions g, h
+        if 'needs:' in extra and set(re.findall(r'\w+', extra.split('needs:')[1])) & set(skip):
             continue
         p = os.path.join(tmpdir, 'agree_%s.v' % name)
         with open(p, 'w') as f:
